@@ -60,6 +60,8 @@ pub struct RawInstance {
    pub dom_sel: usize,
    pub rels: Vec<Vec<Vec<u16>>>,
    pub pushes: Vec<(u16, Vec<u16>)>,
+   /// below 100: a later instance takes the generated type (group and member) of the first instance
+   pub twin: u8,
 }
 
 #[derive(Clone, Debug, serde::Serialize, serde::Deserialize)]
@@ -89,8 +91,9 @@ fn raw_strategy() -> BoxedStrategy<Vec<RawInstance>> {
       0usize..inputs::DOMS.len(),
       proptest::collection::vec(rel, 6..=6),
       proptest::collection::vec((any::<u16>(), row), 0..=3),
+      any::<u8>(),
    )
-      .prop_map(|(group, member, pools, dom_sel, rels, pushes)| RawInstance { group, member, pools, dom_sel, rels, pushes });
+      .prop_map(|(group, member, pools, dom_sel, rels, pushes, twin)| RawInstance { group, member, pools, dom_sel, rels, pushes, twin });
    proptest::collection::vec(inst, 2..=5).boxed()
 }
 
@@ -182,6 +185,13 @@ pub fn run_all(args: &Args, groups: &[Group], result: &Mutex<BatchResult>, nontr
          r.runs += 2 * insts.len() as u64;
          *r.distribution.entry(format!("instances={}", insts.len())).or_insert(0) += 1;
          *r.distribution.entry(format!("first_use_pool={first_pool}")).or_insert(0) += 1;
+         let mut seen_types = BTreeSet::new();
+         if insts.iter().any(|i| !seen_types.insert((i.group, i.member))) {
+            *r.distribution.entry("several_instances_of_one_generated_type".into()).or_insert(0) += 1;
+            if insts.iter().any(|i| i.variant == "par_inter_rule" && insts.iter().filter(|j| (j.group, j.member) == (i.group, i.member)).count() > 1) {
+               *r.distribution.entry("several_instances_of_one_inter_rule_parallelism_type".into()).or_insert(0) += 1;
+            }
+         }
          if out.differing_pool_sizes {
             *r.distribution.entry("overlapping_instances_with_different_pool_sizes".into()).or_insert(0) += 1;
          }
@@ -266,10 +276,13 @@ struct GroupView<'a, 'b>(&'a Group<'b>);
 
 fn realize_views(raw: &[RawInstance], groups: &[GroupView]) -> Vec<Instance> {
    raw.iter()
-      .map(|ri| {
-         let gi = (ri.group as usize * groups.len()) >> 16;
+      .enumerate()
+      .map(|(idx, ri)| {
+         // several values of one generated type at the same time: about 40 % of the later instances are twins of the first
+         let (rg, rm) = if idx > 0 && ri.twin < 100 { (raw[0].group, raw[0].member) } else { (ri.group, ri.member) };
+         let gi = (rg as usize * groups.len()) >> 16;
          let g = groups[gi].0;
-         let mi = (ri.member as usize * g.members.len()) >> 16;
+         let mi = (rm as usize * g.members.len()) >> 16;
          let d = inputs::DOMS[ri.dom_sel];
          let ins = inputs::input_rels(&g.ref_prog);
          let dedup = inputs::wants_set_inputs(&g.ref_prog);
